@@ -168,7 +168,8 @@ def run(ctx):
     now = C.anchor_hashes(sorted(REVIEWED))
     res.extra['anchor_drift'] = {f: dict(reviewed=REVIEWED[f], now=now.get(f), drifted=now.get(f) != REVIEWED[f]) for f in sorted(REVIEWED)}
     res.extra['rendezvous_timeouts'] = data['timeouts']
-    res.extra['forced_overlaps'] = dict(batches_with_2_to_8_in_flight=data['batches'], all_parked_or_finished_together=data['batches_met'])
+    res.extra['forced_overlaps'] = dict(batches_with_2_to_8_in_flight=data['batches'], all_parked_or_finished_together=data['batches_met'],
+                                        parked_at_hook_poison_default_filter=data.get('hook_parked'), hook_parks_timed_out=data.get('hook_timed_out'))
     for s in data['stray'] or []:
         res.violations.append(dict(signature='C13/stray-call', what='a collaborator (%s) was called outside the goroutine that handles the message' % s, case=dict(where=s)))
     good = []
